@@ -317,6 +317,20 @@ def system_ops():
                     w.ob(f"sankey:{f_.name}:unchanged{list(idx)}:colors={sorted(colors)}", w.same(mfa.flows[f_.name].values[idx], V[idx]))
         return []
 
+    def array_plots(E):
+        """line / scatter / area charts of an array (with and without a subplot dimension) leave it alone"""
+        from flodym.export.array_plotter import PlotlyArrayPlotter
+        from matplotlib import pyplot as plt
+
+        for cls in (PlotlyArrayPlotter,):  # (matplotlib converts what it is handed to float: the pyplot back end is C20's, at its recorder)
+            for chart in ("line", "area", "scatter"):
+                cls(array=E.x, intra_line_dim="Alpha", linecolor_dim="Beta", chart_type=chart).plot()
+                cls(array=E.y, intra_line_dim="c", linecolor_dim="b", chart_type=chart).plot()
+                cls(array=E.tx, intra_line_dim="t", subplot_dim="a", chart_type=chart).plot()
+        plt.close("all")
+        return []
+
+    S["array_plots"] = (array_plots, False)
     S["sankey_plot"] = (sankey_plot, False)
     S["stock_from_arrays"] = (stock_from_arrays, False)
     S["to_stock_type"] = (to_stock_type, False)
@@ -354,6 +368,8 @@ def bad_calls():
     B["set_values_from_df_missing_rows"] = lambda E: E.x.set_values_from_df(E.x.to_df().iloc[1:])
     B["set_values_from_df_foreign_items"] = lambda E: E.x.set_values_from_df(E.z.to_df().rename(index={"a1": "zz"}))
     B["cumsum_unknown_letter"] = lambda E: E.x.cumsum("q")
+    B["cumsum_unknown_letter_inplace"] = lambda E: E.x.cumsum("q", inplace=True)
+    B["cumsum_unknown_name_inplace"] = lambda E: E.y.cumsum("Nope", inplace=True)
     def _other(E, items):
         return FlodymArray(dims=DimensionSet(dim_list=[Dimension(name="Alpha", letter="a", items=items), E.D["b"]]), values=np.full((len(items), 2), 1.5))
 
